@@ -117,6 +117,33 @@ Example C02F_reuse_valid_rejected :
   de no_re no_re T_reuse 30 2%N v_reuse = None.
 Proof. vm_compute. repeat split; reflexivity. Qed.
 
+(* ------------------------------------------------------------------ constrained strings, plain array lengths
+   `Name`: a string newtype with minLength / maxLength / pattern (definition position), `P.code`: an inline one
+   (derived name `PCode`), `P.names`: an array with minItems / maxItems (a Vec).  T_str is the real dump
+   (corpus/convert/strings_example.json).  The regex engine is a parameter of the theorems; here
+   `always` answers true. *)
+Definition D_str : defs := [([78; 97; 109; 101]%N, (SObj (Some [TString]) None None None (mkNumv None None None None None) (mkStrv (Some 3%N) (Some 1%N) (Some [94; 97; 98]%N)) ItemsAbsent (@nil schema) None None None false (@nil (ustring * schema)) (@nil ustring) None None None None None None None None None None)); ([80]%N, (SObj (Some [TObject]) None None None (mkNumv None None None None None) (mkStrv None None None) ItemsAbsent (@nil schema) None None None false [([99; 111; 100; 101]%N, (SObj (Some [TString]) None None None (mkNumv None None None None None) (mkStrv (Some 2%N) None None) ItemsAbsent (@nil schema) None None None false (@nil (ustring * schema)) (@nil ustring) None None None None None None None None None None)); ([110; 97; 109; 101; 115]%N, (SObj (Some [TArray]) None None None (mkNumv None None None None None) (mkStrv None None None) ItemsSingle [(SObj None None None None (mkNumv None None None None None) (mkStrv None None None) ItemsAbsent (@nil schema) None None None false (@nil (ustring * schema)) (@nil ustring) None None None None None None None (Some [78; 97; 109; 101]%N) None None)] None (Some 1%N) (Some 5%N) false (@nil (ustring * schema)) (@nil ustring) None None None None None None None None None None))] [[99; 111; 100; 101]%N] None None None None None None None None None None))].
+Definition T_str : space := (mkSpace [(1%N, (mkEntry (DNewtype [78; 97; 109; 101]%N None 3%N (CString (Some 3%N) (Some 1%N) (Some [94; 97; 98]%N))) (@nil ustring))); (2%N, (mkEntry (DStruct [80]%N None [(mkProp [99; 111; 100; 101]%N RNone PRequired 4%N); (mkProp [110; 97; 109; 101; 115]%N RNone POptional 5%N)] false) (@nil ustring))); (3%N, (mkEntry DString (@nil ustring))); (4%N, (mkEntry (DNewtype [80; 67; 111; 100; 101]%N None 3%N (CString (Some 2%N) None None)) (@nil ustring))); (5%N, (mkEntry (DVec 1%N) (@nil ustring)))] 6%N (mkSettings None (@nil ustring) false [58; 58; 32; 115; 116; 100; 32; 58; 58; 32; 99; 111; 108; 108; 101; 99; 116; 105; 111; 110; 115; 32; 58; 58; 32; 72; 97; 115; 104; 77; 97; 112]%N) false false false true (@nil ustring)).
+Definition v_str_ok : json := (JObj [([99; 111; 100; 101]%N, (JStr [120; 121]%N)); ([110; 97; 109; 101; 115]%N, (JArr [(JStr [97; 98]%N); (JStr [97; 98; 99]%N)]))]).
+Definition always : ustring -> ustring -> bool := fun _ _ => true.
+
+Example C02F_str_in_frag : in_frag Sanitize.ascii_classes D_str = true.
+Proof. vm_compute. reflexivity. Qed.
+
+Example C02F_str_convert : convert_doc Sanitize.ascii_classes D_str = Some T_str.
+Proof. vm_compute. reflexivity. Qed.
+
+Example C02F_str_accepted : exists f, de always no_re T_str f 2%N v_str_ok <> None.
+Proof.
+  apply (C02F_fragment_sound Sanitize.ascii_classes always no_re no_re D_str T_str) with (r := [80]%N).
+  - intros f n s _ H. discriminate H.
+  - exact C02F_str_in_frag.
+  - exact C02F_str_convert.
+  - vm_compute. right. left. reflexivity.
+  - vm_compute. reflexivity.
+  - exists 3%nat. split; vm_compute; reflexivity.
+Qed.
+
 (* a by-value cycle (needs a Box from break_cycles) is outside the fragment *)
 Example C02F_cycle_out : in_frag Sanitize.ascii_classes D_cycle = false.
 Proof. vm_compute. reflexivity. Qed.
